@@ -27,6 +27,6 @@ META = dict(
     design_ref="DESIGN.md §6 C19",
     note="Trusted: Lean kernel + propext/Classical.choice/Quot.sound; the correspondence generator (4k starts quick, "
          "all 146 097 starts of a 400-year cycle thorough); Go int as Int; float<->int exact below 2^53.",
-    technique="Lean 4 proof (induction over run length, omega) + differential correspondence model vs real code",
+    technique="Lean 4 proof (induction over run length, omega) + differential correspondence model vs real code + model regenerated from the Go source on every run by a translator (gen_eq_* theorems tie it to the hand-written model)",
 )
 READY = True
